@@ -822,7 +822,7 @@ func (r *c09Run) runState(w *c09World, family string, ts []*ketoapi.RelationTupl
 	}
 	if len(ts) <= 3 && family == "small" && r.states.Load()%8 == 0 || family != "small" && len(ts) <= 120 {
 		// (every 8th small state and the small fan-out / empty cases: the pass multiplies the state's cost by its statement count)
-		defer r.faultPass(w, family, ts, root, depths[len(depths)-1], transports)
+		defer r.faultPass(w, family, ts, root, depths[len(depths)-1], transports, 4*(m.bound+m.tuples+1)+32)
 	}
 	checked := map[string]apih.Resp{}
 	for _, d := range depths {
@@ -877,10 +877,12 @@ func (r *c09Run) runState(w *c09World, family string, ts []*ketoapi.RelationTupl
 // faultPass: every SQL statement of an expand fails in turn (statement k of the fault-free run is
 // refused by the driver): the answer must be an error or exactly the fault-free tree - a storage
 // failure must never be reported as a (smaller) successful picture of the subject set.
-func (r *c09Run) faultPass(w *c09World, family string, ts []*ketoapi.RelationTuple, root *ketoapi.SubjectSet, d c09Depth, transports []string) {
+func (r *c09Run) faultPass(w *c09World, family string, ts []*ketoapi.RelationTuple, root *ketoapi.SubjectSet, d c09Depth, transports []string, horizon int) {
 	names := w.names()
 	for _, tr := range transports {
-		base := w.expand(tr, root, d, names, 1<<30)
+		// same step horizon as the fault-free pass: an expansion that does not terminate within it is reported
+		// there (termination:*), and is not a basis for fault positions
+		base := w.expand(tr, root, d, names, horizon)
 		if base.Err != "" || base.Horizon {
 			continue
 		}
